@@ -150,8 +150,7 @@ class C13(PropCheck):
 
     def finding_replays(self):
         docs.quiet()
-        return {'abs-replaced-ratio-only-width': c13_docs.finding_abs_replaced_ratio_only,
-                'background-round-zero-size': c13_docs.finding_background_round_zero_size}
+        return {'abs-replaced-ratio-only-width': c13_docs.finding_abs_replaced_ratio_only}
 
     def replay(self, data):
         docs.quiet()
@@ -193,7 +192,7 @@ MANIFEST = {
             'modelled: pixel-level losslessness (Pillow / zlib re-encoding, alpha split, EXIF orientation), SVG '
             'rendering and viewBox mapping, RasterImage ratio = inf. Document level uses dyadic lengths and '
             'power-of-two image sides; non-dyadic float results are compared after snapping (counted under '
-            'doc:float-rounding) and never feed a discrete decision. Known findings: abs-replaced-ratio-only-width '
-            '(point 3 of 10.3.2 uses cb_x for absolutely positioned boxes; used_size_ratio_only_partial), '
-            'background-round-zero-size (ZeroDivisionError; background_round holds when the function returns).',
+            'doc:float-rounding) and never feed a discrete decision. Known finding: abs-replaced-ratio-only-width '
+            '(point 3 of 10.3.2 uses cb_x for absolutely positioned boxes; used_size_ratio_only_partial). '
+            'background-round-zero-size is repaired (background_round at full strength, background_round_total).',
 }
